@@ -36,6 +36,7 @@ MaxEff(i) == IF Fed(i) = <<>> THEN BigTs ELSE SetMax({Fed(i)[k].e : k \in DOMAIN
 Lo(i) == MinEff(i) + Buf
 Hi(i) == MaxEff(i) - Buf
 Ok(i) == Tr[i].post.status = "ok"
+WinOk(i) == MinEff(i) + Buf + Buf < MaxEff(i)
 SelOfRun(i) == IF \E k \in 1..i : Tr[k].op \in {"ug", "filter"} /\ Tr[k].run = Tr[i].run
                  THEN Tr[CHOOSE k \in 1..i : Tr[k].op \in {"ug", "filter"} /\ Tr[k].run = Tr[i].run].sel
                  ELSE NoSel
@@ -54,6 +55,12 @@ C11window(i) == (Tr[i].op = "clean2" /\ Ok(i)) => CleanWindowP(Prev(i).nodes, Tr
 C11names(i) == (Tr[i].op = "clean3" /\ Ok(i)) => CleanNamesP(Prev(i).nodes, Tr[i].post.nodes)
 \* nothing but the three cleaning steps and the ingestion changes the table of spans
 C11frame(i) == (Tr[i].op \in {"open", "ug", "filter", "stream", "end"}) => Tr[i].post.nodes = Prev(i).nodes
+\* whatever steps the pipeline ran, what it streams from is a fixpoint of the three cleaning rules: no trace with a
+\* dangling parent, no trace outside the window, every span under its root's workflow name
+C11after(i) == (Tr[i].op = "stream" /\ Ok(i)) =>
+                  LET N == Tr[i].post.nodes IN
+                  /\ CleanInconsistentP(N, N) /\ CleanNamesP(N, N)
+                  /\ (WinOk(i) => CleanWindowP(N, N, Lo(i), Hi(i)))
 \* C11 frame through the pipeline: PV sequences of the traces output by this scenario and by its twin (the same
 \* scenario without the traces that were removed) are identical
 PvOf(tr) == LET k == CHOOSE k \in DOMAIN tr : tr[k].op = "stream" /\ \A m \in DOMAIN tr : tr[m].op = "stream" => m <= k
@@ -82,7 +89,6 @@ C12completes(i) == (Tr[i].op = "end" /\ i > 1 /\ Tr[i - 1].op \in {"clean3", "ug
                       Tr[i].post.status = "ok"
 \* C15: every run completes; any two runs give the same PV sequence for every trace both of them output; all
 \* unique-graph runs on the ingested store select the same shape classes
-WinOk(i) == MinEff(i) + Buf + Buf < MaxEff(i)
 C15completes(i) == (Tr[i].op = "end") => (Tr[i].post.status = "ok" \/ (Tr[i].post.status = "raised" /\ ~WinOk(i)))
 C15same(i) == (Tr[i].op = "stream" /\ Ok(i)) =>
                  \A k \in 1..(i - 1) : (Tr[k].op = "stream" /\ Tr[k].post.status = "ok") =>
@@ -95,13 +101,13 @@ C15classes(i) == (Tr[i].op = "ug" /\ Ok(i) /\ IngestedBefore(i)) =>
 
 Clause(c, i) == CASE c = "C10crash" -> C10crash(i) [] c = "C10unique" -> C10unique(i) [] c = "C10exact" -> C10exact(i)
                   [] c = "C11incons" -> C11incons(i) [] c = "C11window" -> C11window(i) [] c = "C11names" -> C11names(i)
-                  [] c = "C11frame" -> C11frame(i) [] c = "C11twin" -> C11twin(i)
+                  [] c = "C11frame" -> C11frame(i) [] c = "C11twin" -> C11twin(i) [] c = "C11after" -> C11after(i)
                   [] c = "C09exact" -> C09exact(i)
                   [] c = "C12once" -> C12once(i) [] c = "C12exact" -> C12exact(i) [] c = "C12pv" -> C12pv(i)
                   [] c = "C12completes" -> C12completes(i)
                   [] c = "C15completes" -> C15completes(i) [] c = "C15same" -> C15same(i)
                   [] c = "C15classes" -> C15classes(i)
-Clauses == {"C10crash", "C10unique", "C10exact", "C11incons", "C11window", "C11names", "C11frame", "C11twin", "C09exact",
+Clauses == {"C10crash", "C10unique", "C10exact", "C11incons", "C11window", "C11names", "C11frame", "C11twin", "C11after", "C09exact",
             "C12once", "C12exact", "C12pv", "C12completes", "C15completes", "C15same", "C15classes"}
 
 (* ---------------- reporting (always TRUE) ---------------- *)
